@@ -1320,3 +1320,279 @@ def c11_verdict(d, run):
         if ok:
             return None
     return "no match with the expected bindings"
+
+
+# --------------------------------------------------------------------------
+# histories: several questions on ONE report (the parse cache, cait['ast'] / ['success'], the Source tool's tree,
+# set_source / restore_code, expire_cait_cache, two reports alternating).  The oracle is C10's / C11's own: every
+# answer is judged against the program THAT WAS ASKED ABOUT in that step - a fresh ast.parse of its text, kept by the
+# harness, never read back from the report.
+
+class Ref:
+    """What the harness knows about a program text independently of any report: a fresh parse, its dump with
+    positions, the CaitNode tree pedal builds from it (on a throw-away report), the abstract tree for the driver."""
+
+    def __init__(self, code):
+        self.code = code
+        try:
+            self.ast = ast.parse(code)
+        except (SyntaxError, ValueError, MemoryError, RecursionError):
+            self.ast = None
+        if self.ast is not None:
+            self.dump = ast.dump(self.ast, include_attributes=True)
+            self.root = CaitNode(ast.parse(code), report=Report())
+            self.stree = tree_of(self.root, (), {})
+            self.senc = enc_tree(self.stree)
+            self.size = tree_size(self.stree)
+
+
+_REFS = {}
+
+
+def ref_of(code):
+    r = _REFS.get(code)
+    if r is None:
+        if len(_REFS) > 4000:
+            _REFS.clear()
+        r = _REFS[code] = Ref(code)
+    return r
+
+
+def root_of(node):
+    while node.parent is not None:
+        node = node.parent
+    return node
+
+
+def student_nodes(m):
+    """every student node an AstMap mentions"""
+    out = list(m.mappings.values()) + list(m.exp_table.values())
+    for attr in TBL.values():
+        for lst in getattr(m, attr).values():
+            out.extend(sym.astNode for sym in lst.my_list)
+    if m.match_root is not None:
+        out.append(m.match_root)
+    return out
+
+
+class HistoryReport:
+    """One report of a history.  spec = {"setup": "none" | "submission" | "source", "main": text or None,
+    "global": bool}; global = pedal's MAIN_REPORT, and every cait_api call leaves `report=` out."""
+
+    MAIN = Program.MAIN
+
+    def __init__(self, spec):
+        from pedal.core.report import MAIN_REPORT
+        self.is_global = bool(spec.get("global"))
+        if self.is_global:
+            MAIN_REPORT.clear()
+            self.report = MAIN_REPORT
+        else:
+            self.report = Report()
+        self.setup = spec["setup"]
+        self.current = None          # the harness's own record of the submission's main code
+        self.stack = []
+        self.held = {}               # text -> the root parse_program returned for it first
+        if self.setup != "none":
+            from pedal.core.submission import Submission
+            from pedal.core.commands import contextualize_report
+            contextualize_report(Submission(files={self.MAIN: spec["main"], "answer.py": "zz_not_this = 0\n"},
+                                            main_file=self.MAIN), report=self.report)
+            self.current = spec["main"]
+            if self.setup == "source":
+                from pedal.source import verify
+                verify(report=self.report)
+
+    @property
+    def kw(self):
+        return {} if self.is_global else {"report": self.report}
+
+
+class HistoryStep:
+    """One judged question of a history; quacks like RealRun for the correspondence and the two searches."""
+
+    anchor = ()
+    use_previous = False
+    parent = None
+    first_differs = False
+    compare_model = True
+
+    def __init__(self, pattern, asked, api):
+        self.pattern = pattern
+        self.code = asked
+        self.api = api
+        self.exc = None
+        self.raw = None
+        self.matches = None
+        self.foreign = None          # why the answer is not about the asked program at all
+        self.ref = ref_of(asked)
+        ptop = ast.parse(pattern)
+        self.multi = len(ptop.body) != 1
+        self.ptree = tree_of(CaitNode(ptop, "none", report=Report()), (), {})
+        self.penc = enc_tree(self.ptree)
+        if self.ref.ast is not None:
+            self.stree, self.senc, self.size = self.ref.stree, self.ref.senc, self.ref.size
+        else:
+            # an unparsable text has no tree: CAIT must answer [] (it looks at an empty module)
+            empty = ref_of("")
+            self.stree, self.senc, self.size = empty.stree, empty.senc, 1
+
+    def judge(self, raw):
+        self.raw = raw
+        if not raw:
+            self.matches = []
+            return
+        k = next(iter(raw[0].mappings), None)
+        if k is None:
+            self.exc = "match-pairs-no-pattern-node"
+            return
+        while k.parent is not None:
+            k = k.parent
+        pindex = index_of(k)
+        if len(pindex) != tree_size(self.ptree):
+            raise RuntimeError("pattern tree rebuilt differently")
+        roots = {}
+        for m in raw:
+            for n in student_nodes(m):
+                r = root_of(n)
+                roots[id(r)] = r
+        sindex = {}
+        if self.ref.ast is None:
+            self.foreign = "the asked text does not parse, yet matches are returned"
+        elif len(roots) != 1:
+            self.foreign = "the matched nodes belong to %d different trees" % len(roots)
+        else:
+            root = next(iter(roots.values()))
+            if not isinstance(root.astNode, ast.AST) or \
+                    ast.dump(root.astNode, include_attributes=True) != self.ref.dump:
+                self.foreign = "the matched nodes are not nodes of the asked program's tree"
+                self.foreign_root = root
+            else:
+                sindex = index_of(root)
+                if tree_of(root, (), {}) != self.stree:
+                    self.exc = "student-tree-fields-not-restored"
+        # nodes outside the asked program's tree get the path ("outside",): comparison and embedding check fail
+        self.matches = [canon_real_match(m, pindex, sindex) for m in raw]
+
+    def request(self):
+        return "match " + self.penc + " " + self.senc
+
+    def embed_matches(self):
+        return self.matches
+
+    def embed_request(self):
+        ms = self.matches
+        return ("embed " + self.penc + " " + self.senc + " " + str(len(ms)) + " " +
+                " ".join(enc_match(m) for m in ms))
+
+
+QUERY_OPS = ("find_matches", "find_match", "node", "held")
+STATE_OPS = ("parse_program", "find_asts", "expire", "reset", "set_source", "restore")
+
+
+def run_history(spec, notes=None):
+    """spec = {"reports": [report spec, ...], "steps": [step, ...]}, JSON-able.
+    step = {"r": report index, "op": one of QUERY_OPS + STATE_OPS, "target": "code" | "sub", "code": text,
+            "pattern": text, "spell": "kw" | "pos" | "none", "kind": AST class name for find_asts}
+    Returns one entry per step: a HistoryStep for a judged question, None otherwise (state-only steps, steps that do
+    not apply - `sub` without a submission, `restore` with nothing to restore)."""
+    from pedal.cait import cait_api
+    from pedal.core.report import MAIN_REPORT
+
+    def note(k):
+        if notes is not None:
+            notes[k] = notes.get(k, 0) + 1
+    reports = [HistoryReport(r) for r in spec["reports"]]
+    out = []
+    try:
+        for st in spec["steps"]:
+            rep = reports[st.get("r", 0) % len(reports)]
+            op = st["op"]
+            kw = rep.kw
+            if op == "expire":
+                cait_api.expire_cait_cache(**kw)
+                out.append(None)
+                continue
+            if op == "reset":
+                cait_api.reset(**kw)
+                out.append(None)
+                continue
+            if op == "set_source":
+                from pedal.source import set_source
+                had = rep.current is not None
+                try:
+                    set_source(st["code"], filename=rep.MAIN, **kw)
+                except Exception as e:
+                    note("history:set_source-raises-" + type(e).__name__)
+                if had:
+                    rep.stack.append(rep.current)
+                rep.current = st["code"]
+                out.append(None)
+                continue
+            if op == "restore":
+                if rep.stack:
+                    from pedal.source.source import restore_code
+                    try:
+                        restore_code(**kw)
+                    except Exception as e:
+                        note("history:restore-raises-" + type(e).__name__)
+                    rep.current = rep.stack.pop()
+                else:
+                    note("history:skipped-restore-nothing-to-restore")
+                out.append(None)
+                continue
+            if st.get("target") == "sub":
+                if rep.current is None:
+                    note("history:skipped-no-submission")
+                    out.append(None)
+                    continue
+                asked = rep.current
+                args, akw = (), ({"student_code": None} if st.get("spell") == "none" else {})
+            else:
+                asked = st["code"]
+                args, akw = ((asked,), {}) if st.get("spell") == "pos" else ((), {"student_code": asked})
+            akw = dict(akw, **kw)
+            if op in ("parse_program", "find_asts"):
+                try:
+                    if op == "parse_program":
+                        root = cait_api.parse_program(*args, **akw)
+                        if ref_of(asked).ast is not None:
+                            rep.held.setdefault(asked, root)
+                    else:
+                        cait_api.find_asts(st.get("kind", "Name"), *args, **akw)
+                except Exception as e:
+                    note("history:%s-raises-%s" % (op, type(e).__name__))
+                out.append(None)
+                continue
+            pattern = st["pattern"]
+            api = "node" if op == "held" else op
+            step = HistoryStep(pattern, asked, api)
+            try:
+                if op == "find_matches":
+                    raw = cait_api.find_matches(pattern, *args, **akw)
+                elif op == "find_match":
+                    m = cait_api.find_match(pattern, *args, **akw)
+                    raw = [] if m is None else [m]
+                else:
+                    root = rep.held.get(asked) if op == "held" else None
+                    if root is None:
+                        root = cait_api.parse_program(*args, **akw)
+                    if step.ref.ast is None:
+                        # no program, no root node to ask: only the state change of the parse counts
+                        note("history:skipped-node-route-on-unparsable-text")
+                        out.append(None)
+                        continue
+                    rep.held.setdefault(asked, root)
+                    raw = root.find_matches(pattern, is_mod=step.multi, use_previous=False)
+            except RecursionError:
+                raise
+            except Exception as e:
+                step.exc = type(e).__name__
+                out.append(step)
+                continue
+            step.judge(raw)
+            out.append(step)
+    finally:
+        if any(r.is_global for r in reports):
+            MAIN_REPORT.clear()
+    return out
